@@ -22,6 +22,7 @@ from liquer.parser import all_splits, encode, decode
 import logging
 import traceback
 import base64
+import uuid
 from copy import deepcopy
 import numpy as np
 
@@ -610,7 +611,7 @@ class FileCache(CacheMixin):
             b, mime = t.as_bytes(state.data)
         except NotImplementedError:
             return False
-        temporary_path = path + ".tmp"
+        temporary_path = f"{path}.{uuid.uuid4().hex}.tmp"
         with open(temporary_path, "wb") as f:
             f.write(self.encode(b))
         os.replace(temporary_path, path)
